@@ -58,7 +58,7 @@ func (c tcfg) String() string {
 
 // appKey identifies configurations that can share one app (memory backend only, see memRig).
 func (c tcfg) appKey() string {
-	return fmt.Sprintf("%v/%d/%v/%d/%v/%v", c.Sliding, c.Max, c.Dyn, c.E, c.SkipFailed, c.SkipOK)
+	return fmt.Sprintf("%v/%d/%d/%v/%v", c.Sliding, c.Max, c.E, c.SkipFailed, c.SkipOK)
 }
 
 // tstep is one request of a history.
@@ -74,8 +74,10 @@ type tstep struct {
 // tobs is what was observed for one request.
 type tobs struct {
 	Ran        bool   `json:"-"`
-	TS         uint64 `json:"ts"`     // coarse clock when the request was sent
-	TSEnd      uint64 `json:"ts_end"` // ... when the response arrived
+	T          int64  `json:"t_ns"`     // virtual time (unix ns) when the request was sent
+	TEnd       int64  `json:"t_end_ns"` // ... when the response arrived
+	TS         uint64 `json:"ts"`       // coarse clock when the request was sent
+	TSEnd      uint64 `json:"ts_end"`   // ... when the response arrived
 	Entered    int    `json:"entered"`
 	Status     int    `json:"status"`
 	RetryAfter string `json:"retry_after,omitempty"`
@@ -226,6 +228,11 @@ func getRig(cfg tcfg) *rig {
 		rg.cfg = cfg
 		return rg
 	}
+	// Shared apps always install MaxFunc (it falls back to cfg.Max when the request carries no
+	// X-Max, which is what the default MaxFunc does); the nil-MaxFunc path is exercised by the
+	// per-history apps of the storage backend.
+	mk := cfg
+	mk.Dyn = true
 	// create the store's ticker at phase k s + 250 ms, away from every instant the harness acts at
 	now := time.Now()
 	ph := time.Duration(now.Nanosecond())
@@ -234,7 +241,8 @@ func getRig(cfg tcfg) *rig {
 		tgt += time.Second
 	}
 	time.Sleep(tgt - ph)
-	rg := newRig(cfg)
+	rg := newRig(mk)
+	rg.cfg = cfg
 	memRigs[k] = rg
 	return rg
 }
@@ -302,12 +310,14 @@ func (rg *rig) exec(caseID string, steps []tstep, only int) ([]tobs, string) {
 		}
 		o := &obs[i]
 		o.Ran = true
-		o.TS = uint64(time.Now().Unix())
+		o.T = time.Now().UnixNano()
+		o.TS = uint64(o.T / 1e9)
 		if uint64(utils.Timestamp()) != o.TS {
 			clockErr = fmt.Sprintf("step %d: utils.Timestamp=%d, virtual clock=%d", i, utils.Timestamp(), o.TS)
 		}
 		resp := rg.d.Do(rg.request(i, keys[st.Key], st))
-		o.TSEnd = uint64(time.Now().Unix())
+		o.TEnd = time.Now().UnixNano()
+		o.TSEnd = uint64(o.TEnd / 1e9)
 		o.fill(resp)
 	}
 	return obs, clockErr
@@ -329,6 +339,13 @@ func alignHalf() {
 
 func describeSteps(steps []tstep, obs []tobs) []string {
 	var out []string
+	var t0 int64
+	for _, o := range obs {
+		if o.Ran && (t0 == 0 || o.T < t0) {
+			t0 = o.T
+		}
+	}
+	t0 -= t0 % 1e9 // the whole second in which the history starts
 	for i, st := range steps {
 		var sb strings.Builder
 		fmt.Fprintf(&sb, "#%d +%dms", i, st.Adv)
@@ -345,7 +362,7 @@ func describeSteps(steps []tstep, obs []tobs) []string {
 		}
 		if i < len(obs) && obs[i].Ran {
 			o := obs[i]
-			fmt.Fprintf(&sb, " => ts=%d entered=%d status=%d", o.TS, o.Entered, o.Status)
+			fmt.Fprintf(&sb, " => sent at %.3fs (coarse clock %d) entered=%d status=%d", float64(o.T-t0)/1e9, (o.T-t0)/1e9, o.Entered, o.Status)
 			if o.RetryAfter != "" {
 				fmt.Fprintf(&sb, " Retry-After=%s", o.RetryAfter)
 			}
